@@ -107,7 +107,7 @@ fn stats_line(s: &dyn roughenough::stats::ServerStats) -> String {
     )
 }
 
-fn start(batch: u8, fault: u8, level: u32, client_stats: bool, seed: Vec<u8>, health: bool) -> Result<(Srv, String), String> {
+fn start(batch: u8, fault: u8, level: u32, client_stats: bool, seed: Vec<u8>, health: bool, status_ms: u64) -> Result<(Srv, String), String> {
     set_level(level);
     LOGS.lock().unwrap().clear();
     let std_sock = StdUdp::bind("127.0.0.1:0").map_err(|e| e.to_string())?;
@@ -128,6 +128,9 @@ fn start(batch: u8, fault: u8, level: u32, client_stats: bool, seed: Vec<u8>, he
                 cfg.client_stats = client_stats;
                 cfg.seed = seed;
                 cfg.health_check_port = hp;
+                if status_ms > 0 {
+                    cfg.status_interval = Duration::from_millis(status_ms);
+                }
                 let sock = mio::net::UdpSocket::from_socket(std_sock).unwrap();
                 let q = Arc::new(StatsQueue::new(4));
                 Server::new(&cfg, sock, q)
@@ -214,7 +217,9 @@ pub fn cmd_serve(st: &mut crate::State, arg: &str) -> String {
             let cs = p[3] == "1";
             let seed = unhex(p[4]);
             let health = p.len() > 5 && p[5] == "1";
-            match start(batch, fault, level, cs, seed, health) {
+            // optional: status interval in milliseconds (the statistics hand-off ticks every tenth of it)
+            let status_ms: u64 = if p.len() > 6 { p[6].parse().unwrap_or(0) } else { 0 };
+            match start(batch, fault, level, cs, seed, health, status_ms) {
                 Ok((s, line)) => {
                     let out = format!("{} port={} health={}", line, s.port, s.health_port.unwrap_or(0));
                     st.srv = Some(s);
@@ -275,6 +280,21 @@ pub fn cmd_serve(st: &mut crate::State, arg: &str) -> String {
             }
             let nlogs = LOGS.lock().map(|g| g.len()).unwrap_or(0);
             format!("{} T={},{} LOG={} R={}", status, t0, t1, nlogs, out.join(";"))
+        }
+        "idle" => {
+            // no traffic for <ms> milliseconds, then a few event-loop passes (so that a due statistics
+            // tick is served); answers with the recorder's totals afterwards
+            let srv = match st.srv.as_mut() {
+                Some(s) => s,
+                None => return "NO-SERVER".into(),
+            };
+            let ms: u64 = rest.trim().parse().unwrap_or(0);
+            std::thread::sleep(Duration::from_millis(ms));
+            let mut status = String::new();
+            for _ in 0..3 {
+                status = srv.process();
+            }
+            status
         }
         "stats" => {
             let srv = match st.srv.as_mut() {
